@@ -459,20 +459,35 @@ def sk_open(data, suite, sk_a, sk_e):
     if not chain or chain[-1]['type'] != P_SK:
         raise DecodeError('no SK payload at the end')
     if len(chain) != 1:
-        raise DecodeError('cleartext payloads beside SK')
+        e2 = DecodeError('cleartext payloads beside SK')
+        e2.kind = 'cleartext_beside_sk'
+        raise e2
     icv = suite.icv
-    if _hmac.compare_digest(integ(suite.integ, sk_a, data[:-icv]), data[-icv:]) is False:
-        raise DecodeError('ICV mismatch')
+    icv_ok = _hmac.compare_digest(integ(suite.integ, sk_a, data[:-icv]), data[-icv:])
     body = chain[-1]['body']
     if len(body) < 16 + 16 + icv or (len(body) - 16 - icv) % 16:
-        raise DecodeError('SK geometry')
+        raise DecodeError('SK geometry' if icv_ok else 'ICV mismatch and SK geometry')
     iv, ct = body[:16], body[16:-icv]
     pt = aes_cbc(sk_e, iv, ct, decrypt=True)
     pad = pt[-1]
-    if pad + 1 > len(pt):
-        raise DecodeError('pad length')
-    inner = pt[:-1 - pad]
-    return h, dec_chain(inner, chain[-1]['next']), {'iv': iv, 'pad': pad, 'plain_len': len(inner), 'padding': pt[-1 - pad:-1]}
+    inner_ok = True
+    try:
+        if pad + 1 > len(pt):
+            raise DecodeError('pad length')
+        inner = pt[:-1 - pad]
+        inner_chain = dec_chain(inner, chain[-1]['next'])
+    except DecodeError as ex:
+        if icv_ok:
+            e2 = DecodeError(f'plaintext malformed although the checksum verifies: {ex}')
+            e2.kind = 'plaintext'
+            raise e2
+        inner_ok = False
+    if not icv_ok:
+        # do the encryption keys work?  then the key schedule is right and it is the checksum construction that deviates
+        e2 = DecodeError('ICV mismatch' + (' (but the ciphertext decrypts to a well-formed payload chain under SK_e)' if inner_ok else ''))
+        e2.kind = 'icv_only' if inner_ok else 'keys'
+        raise e2
+    return h, inner_chain, {'iv': iv, 'pad': pad, 'plain_len': len(inner), 'padding': pt[-1 - pad:-1]}
 
 
 def sk_seal(h, payloads, suite, sk_a, sk_e, iv, pad_extra=0):
